@@ -317,6 +317,21 @@ theorem c16_register_module (d : Diagram) (H : Nat → Option Handler) (n : Nat)
     cases hH
     exact ⟨by simp, fun k hk => by simp [hk]⟩
 
+/-- What the pre-flight checks of `execute` demand, in the words of the property: they pass exactly when every
+    wire starts at an existing module, no input port has two wires, no wired port is also given an external value,
+    every module with outputs has a handler, and every input port has a wire or an external value.  (So the
+    hypothesis `pre` of `c16_schedulable_diagram_runs` is a statement about the diagram, not about the model.) -/
+theorem c16_preflight_passes_iff (d : Diagram) (H : Nat → Option Handler) (mi : MInputs) :
+    preflight d H mi = none ↔
+      (∀ w ∈ d.wires, (d.findMod w.srcM).isSome = true) ∧
+      (∀ w ∈ d.wires, (d.incoming w.dstM w.dstP).length ≤ 1) ∧
+      (∀ w ∈ d.wires, hasKey w.dstP (mi w.dstM) = false) ∧
+      (∀ m ∈ d.modules, m.outputs ≠ [] → (H m.name).isSome = true) ∧
+      (∀ m ∈ d.modules, ∀ pp ∈ m.inputs, d.incoming m.name pp.1 ≠ [] ∨ hasKey pp.1 (mi m.name) = true) := by
+  rw [preflight_iff]
+  exact ⟨fun h => ⟨h.srcExists, h.uniq, h.notBoth, h.handlers, h.sources⟩,
+    fun ⟨a, b, c, e, f⟩ => ⟨a, b, c, e, f⟩⟩
+
 /-! ## capabilities -/
 
 /-- Required capabilities are the union over the modules (as a set: no repetitions). -/
